@@ -80,6 +80,15 @@ func CheckStorageHealth(storage SlabStorage, expectedNumberOfRootSlabs int) (map
 		}
 	}
 
+	// Every referenced slab must be one of the slabs seen during iteration.
+	// Otherwise a reference to a removed slab (e.g. a nil entry in deltas or
+	// read cache, which slab iteration skips) would go undetected.
+	for childID, parentID := range parentOf {
+		if _, ok := slabs[childID]; !ok {
+			return nil, NewSlabNotFoundErrorf(childID, "slab %s referenced by slab %s is not found in storage", childID, parentID)
+		}
+	}
+
 	rootsMap := make(map[SlabID]struct{})
 	visited := make(map[SlabID]struct{})
 	var id SlabID
